@@ -787,4 +787,690 @@ theorem firstDay_fill {cal : Cal} {used : Int → Rat} {day0 : Int} {left : Rat}
   congr 1
   omega
 
+/-! ### C09, encoding clause -/
+
+/-- the body of `c09Encode` for one task -/
+def c09EncodeAt (env : Env) (o : Output) (t : Uid) : Bool :=
+  !isLeaf env t || (env.info t).milestone ||
+  let k := (env.info t).resource
+  match firstDay (rowsOf o.rows t), (o.f t).start, (o.f t).end_ with
+  | some d1, some s, some e =>
+    let c1 := capMid o.res k d1
+    let d0 : Int := if e == (dayOf e : Rat) then dayOf e - 1 else dayOf e
+    let c0 := capMid o.res k d0
+    decide (0 < c1) && s == (d1 : Rat) + 1 - bookedUpTo env o k d1 t / c1 &&
+    decide (0 < c0) && e == (d0 : Rat) + 1 - bookedBefore env o k d0 t / c0
+  | none, _, _ => true
+  | _, _, _ => false
+
+theorem c09Encode_eq (env : Env) (o : Output) : c09Encode env o = (memberList env).all (c09EncodeAt env o) := rfl
+
+theorem c09EncodeAt_norows (env : Env) (o : Output) (t : Uid) (h : rowsOf o.rows t = []) :
+    c09EncodeAt env o t = true := by
+  unfold c09EncodeAt
+  simp [h, firstDay]
+
+theorem c09EncodeAt_intro (env : Env) (o : Output) (t : Uid) (d1 d : Int)
+    (hfd : firstDay (rowsOf o.rows t) = some d1)
+    (hc1 : 0 < capMid o.res (env.info t).resource d1)
+    (hs : (o.f t).start = some ((d1 : Rat) + 1 - bookedUpTo env o (env.info t).resource d1 t /
+      capMid o.res (env.info t).resource d1))
+    (h0 : 0 ≤ bookedBefore env o (env.info t).resource d t)
+    (h1 : bookedBefore env o (env.info t).resource d t < capMid o.res (env.info t).resource d)
+    (he : (o.f t).end_ = some ((d : Rat) + 1 - bookedBefore env o (env.info t).resource d t /
+      capMid o.res (env.info t).resource d)) :
+    c09EncodeAt env o t = true := by
+  have hfr := div_nonneg_lt_one h0 h1
+  have hd0 := endDay_spec d _ hfr.1 hfr.2
+  unfold c09EncodeAt
+  simp only [hfd, hs, he, hd0]
+  have hc0 : 0 < capMid o.res (env.info t).resource d := by grind
+  simp [hc1, hc0]
+
+/-- the verdict on a done task is not affected by later placements -/
+theorem c09EncodeAt_stable (env : Env) (σ σ' : SS) (t : Uid) (he : Ext σ σ') (ht : t ∈ σ.done)
+    (hres : (σ.res.map (·.1)).contains (env.info t).resource = true) :
+    c09EncodeAt env (outOf σ') t = c09EncodeAt env (outOf σ) t := by
+  obtain ⟨r, hr, hrd⟩ := he.rows
+  obtain ⟨rr, hrr, _⟩ := he.res
+  have hnew : ∀ x ∈ r, x.task ≠ t := fun x hx hc => (hrd x hx).2 (hc ▸ ht)
+  have hrows : rowsOf σ'.rows t = rowsOf σ.rows t := by
+    rw [hr, rowsOf_append, rowsOf_none r t hnew, List.append_nil]
+  by_cases hne : rowsOf σ.rows t = []
+  · rw [c09EncodeAt_norows env (outOf σ) t hne, c09EncodeAt_norows env (outOf σ') t (hrows.trans hne)]
+  · have hf : σ'.f t = σ.f t := he.frozen t ht
+    have hcap : ∀ d, capMid σ'.res (env.info t).resource d = capMid σ.res (env.info t).resource d := fun d => by
+      rw [hrr]; exact capMid_append _ _ _ _ hres
+    have hbb : ∀ d, bookedBefore env (outOf σ') (env.info t).resource d t =
+        bookedBefore env (outOf σ) (env.info t).resource d t := fun d => by
+      rw [bookedBefore_eq, bookedBefore_eq]
+      show bookedBeforeR env σ'.rows _ _ _ = bookedBeforeR env σ.rows _ _ _
+      rw [hr]; exact bookedBeforeR_append env _ _ _ _ _ hne
+    have hown : ∀ d, reserved σ'.rows (env.info t).resource d (some t) =
+        reserved σ.rows (env.info t).resource d (some t) := fun d => by
+      rw [hr, reserved_append, reserved_other r _ d t hnew]; grind
+    have hbu : ∀ d, bookedUpTo env (outOf σ') (env.info t).resource d t =
+        bookedUpTo env (outOf σ) (env.info t).resource d t := fun d => by
+      unfold bookedUpTo
+      rw [hbb d]
+      show _ + reserved σ'.rows _ _ _ = _ + reserved σ.rows _ _ _
+      rw [hown d]
+    unfold c09EncodeAt
+    simp only [hbb, hbu]
+    simp only [outOf, hrows, hf, hcap]
+    rfl
+
+theorem capMid_place (env : Env) (σ σ' : SS) (t : Uid) (d : Int) (c : Rat)
+    (hres : σ'.res = (resLookup σ.res (env.info t).resource).1)
+    (hc : capR (placeCal env σ t) (d : Rat) = .ok c) : capMid σ'.res (env.info t).resource d = c := by
+  unfold capMid
+  rw [hres, (resLookup_spec σ.res (env.info t).resource).2.1]
+  show (match capR (placeCal env σ t) (d : Rat) with | .ok v => v | .error _ => 0) = c
+  rw [hc]
+
+/-- the placement of a leaf makes the encoding clause true for it -/
+theorem encode_place (env : Env) (σ σ' : SS) (t : Uid) (m v : Time) (d : Int) (c : Rat) (s : Time)
+    (rows : List (Int × Rat)) (hb : Base env σ) (ht : t ∉ σ.done)
+    (hp : LeafPlaced env σ σ' t m v d c s rows) : c09EncodeAt env (outOf σ') t = true := by
+  have hno : ∀ x ∈ σ.rows, x.task ≠ t := fun x hx hc => ht (hc ▸ hb.rowsDone x hx)
+  have hrows : rowsOf σ'.rows t = rows.map (mkRow (env.info t).resource t) := by
+    rw [hp.rowsEq, rowsOf_append, rowsOf_none _ t hno, rowsOf_mk, List.nil_append]
+  have hu := placeUsed_nonneg env σ t hb.ledger
+  rcases hp.fill with hnil | ⟨dayL, c', left, hsp, hne, hc', hs'⟩
+  · exact c09EncodeAt_norows env (outOf σ') t (by rw [show (outOf σ').rows = σ'.rows from rfl, hrows, hnil]; rfl)
+  · have hbb : ∀ x, bookedBefore env (outOf σ') (env.info t).resource x t = placeUsed env σ t x := fun x => by
+      rw [bookedBefore_eq]
+      show bookedBeforeR env σ'.rows _ _ _ = _
+      rw [hp.rowsEq]
+      exact bookedBeforeR_new env σ.rows t rows x hno hne
+    have hbu : bookedUpTo env (outOf σ') (env.info t).resource dayL t = placeUsed env σ t dayL + daySum rows dayL := by
+      unfold bookedUpTo
+      rw [hbb]
+      show _ + reserved σ'.rows _ _ _ = _
+      rw [hp.rowsEq, reserved_append, reserved_other σ.rows _ dayL t hno, reserved_mk]
+      simp only [true_and, Option.some.injEq, imp_self, implies_true, if_true]
+      grind
+    obtain ⟨u, hlast⟩ := hsp.last hne
+    obtain ⟨c'', hc'', hu0, hu1⟩ := hsp.fits (dayL, u) (List.mem_of_getLast? hlast)
+    simp only at hc'' hu0 hu1
+    rw [hc'] at hc''
+    cases hc''
+    have hcm1 := capMid_place env σ σ' t dayL c' hp.resEq hc'
+    have hcm0 := capMid_place env σ σ' t d c hp.resEq hp.cap
+    refine c09EncodeAt_intro env (outOf σ') t dayL d ?_ ?_ ?_ ?_ ?_ ?_
+    · show firstDay (rowsOf σ'.rows t) = _
+      rw [hrows]; exact firstDay_fill hsp hne _ _
+    · show 0 < capMid σ'.res _ _
+      rw [hcm1]; have := hu dayL; grind
+    · show (σ'.f t).start = some (_ - _ / capMid σ'.res _ _)
+      rw [hp.start, hs', hbu, hcm1]
+    · rw [hbb]; exact hu d
+    · rw [hbb]; show _ < capMid σ'.res _ _
+      rw [hcm0]; have := hp.avail; grind
+    · show (σ'.f t).end_ = some (_ - _ / capMid σ'.res _ _)
+      rw [hp.end_, hbb, hcm0]
+
+def EncInv (env : Env) (σ : SS) : Prop := ∀ t ∈ σ.done, c09EncodeAt env (outOf σ) t = true
+
+theorem EncInv.place {env : Env} {σ σ' : SS} {t : Uid} {m v : Time} (hb : Base env σ) (hx : EncInv env σ)
+    (hmem : (env.info t).member = true) (ht : t ∉ σ.done) (h : bwdPlace env σ t m v = .ok σ') :
+    EncInv env σ' := by
+  obtain ⟨hext, hd⟩ := bwdPlace_ext env σ σ' t m v ht h
+  intro x hxd
+  rw [hd] at hxd
+  rcases List.mem_append.1 hxd with hxd | hxd
+  · rw [c09EncodeAt_stable env σ σ' x hext hxd (hb.hasRes x hxd)]
+    exact hx x hxd
+  · simp only [List.mem_singleton] at hxd
+    subst hxd
+    cases hleaf : (env.info x).children.isEmpty with
+    | false => unfold c09EncodeAt; simp [isLeaf, hleaf]
+    | true =>
+      cases hm : (env.info x).milestone with
+      | true => unfold c09EncodeAt; simp [hm]
+      | false =>
+        obtain ⟨hs0, he0⟩ := hb.fresh x hmem ht
+        obtain ⟨d, c, s, rows, hp⟩ := bwdPlace_leaf env σ σ' x m v hb.ledger hleaf hm hs0 he0 h
+        exact encode_place env σ σ' x m v d c s rows hb ht hp
+
+theorem backwardCalc_c09Encode (env : Env) (f0 : Uid → Fields) (res0 : List (Option Nat × Cal)) (o : Output)
+    (hf : env.flagsOK) (hn : noFixedDates env f0 = true) (h : backwardCalc env f0 res0 = .ok o) :
+    c09Encode env o = true := by
+  obtain ⟨σ, hb, hx, rfl, hall⟩ := backwardCalc_final env f0 res0 o hf hn h (EncInv env) (RDeadline env)
+    (fun σ h0 t ht => by rw [h0] at ht; cases ht) (fun _ _ hr => hr)
+    (fun r hr => ⟨member_root env hf f0 res0 o h r hr, Rat.le_refl⟩)
+    (fun σ1 t c m hr hc => ⟨member_child env hf t c hr.1 hc, Rat.le_trans (minStarts_le _ _ _) hr.2⟩)
+    (fun t p m hr _ he => ⟨he.trans hr.1, hr.2⟩)
+    (fun σ1 σ σ' t m hr hb hx ht _ _ _ hpl _ => hx.place hb hr.1 ht hpl)
+  rw [c09Encode_eq, List.all_eq_true]
+  intro t ht
+  exact hx t (hall t ht)
+
+/-! ### C09, dependency and late-packing clauses (no links on tasks with children) -/
+
+theorem nsl_spec (env : Env) (hs : noSummaryLinks env = true) (t : Uid) (ht : t ∈ memberList env)
+    (hl : (env.info t).children.isEmpty = false) : (env.info t).preds = [] ∧ (env.info t).succs = [] := by
+  have := List.all_eq_true.1 hs t ht
+  simpa [isLeaf, hl] using this
+
+theorem ancestors_summary (env : Env) (hp : env.parentsOK) : ∀ (f : Nat) (t : Uid), t ∈ memberList env →
+    ∀ x ∈ ancestorsOf env f t, x ∈ memberList env ∧ (env.info x).children.isEmpty = false := by
+  intro f
+  induction f with
+  | zero => intro t _ x hx; simp [ancestorsOf] at hx
+  | succ f ih =>
+    intro t ht x hx
+    unfold ancestorsOf at hx
+    cases hpar : (env.info t).parent with
+    | none => simp [hpar] at hx
+    | some p =>
+      simp only [hpar] at hx
+      obtain ⟨hpm, hpc⟩ := hp t p ht hpar
+      rcases List.mem_cons.1 hx with rfl | hx
+      · refine ⟨hpm, ?_⟩
+        cases hc : (env.info x).children with
+        | nil => rw [hc] at hpc; cases hpc
+        | cons a l => rfl
+      · exact ih p hpm x hx
+
+/-- without links on summary tasks (and consistent parent pointers) the prerequisites of a member are reached
+    through its own predecessor list only -/
+theorem prereq_collapse (env : Env) (hs : noSummaryLinks env = true) (hp : env.parentsOK) (t : Uid)
+    (ht : t ∈ memberList env) (q : Uid) (h : q ∈ prereqLeaves env t) :
+    ∃ p ∈ (env.info t).preds, q ∈ (leavesOf env p).getD [] := by
+  unfold prereqLeaves waitsFor at h
+  obtain ⟨p, hpm, hq⟩ := List.mem_flatMap.1 h
+  obtain ⟨x, hx, hpx⟩ := List.mem_flatMap.1 hpm
+  rcases List.mem_cons.1 hx with rfl | hx
+  · exact ⟨p, hpx, hq⟩
+  · obtain ⟨hxm, hxl⟩ := ancestors_summary env hp _ t ht x hx
+    rw [(nsl_spec env hs x hxm hxl).1] at hpx
+    cases hpx
+
+theorem leavesOf_leaf (env : Env) (p : Uid) (h : (env.info p).children.isEmpty = true) :
+    leavesOf env p = some [p] := by
+  unfold leavesOf; simp [h]
+
+theorem succLeaves_own (env : Env) (t s : Uid) (hs : s ∈ (env.info t).succs)
+    (hl : (env.info s).children.isEmpty = true) : s ∈ succLeaves env t := by
+  unfold succLeaves
+  refine List.mem_flatMap.2 ⟨s, List.mem_flatMap.2 ⟨t, by simp, hs⟩, ?_⟩
+  rw [leavesOf_leaf env s hl]; simp
+
+/-- dependency invariant: a done leaf ends no later than each of its member successors starts -/
+def DepInv (env : Env) (σ : SS) : Prop :=
+  ∀ p ∈ σ.done, (env.info p).children.isEmpty = true → ∀ t ∈ (env.info p).succs, (env.info t).member = true →
+    t ∈ σ.done ∧ ∃ e st, (σ.f p).end_ = some e ∧ (σ.f t).start = some st ∧ e ≤ st
+
+theorem DepInv.place {env : Env} {σ1 σ σ' : SS} {t : Uid} {m : Time} (hb : Base env σ) (hx : DepInv env σ)
+    (hmem : (env.info t).member = true) (ht : t ∉ σ.done) (he1 : Ext σ1 σ)
+    (hsd : ∀ s ∈ (env.info t).succs, (env.info s).member = (env.info t).member → s ∈ σ1.done)
+    (hk : ∀ c ∈ (env.info t).children, c ∈ σ.done) (hmb : m ≤ env.bound)
+    (h : bwdPlace env σ t m (minStarts σ1 (env.info t).succs m) = .ok σ') : DepInv env σ' := by
+  obtain ⟨hext, hd⟩ := bwdPlace_ext env σ σ' t m _ ht h
+  intro p hpd hleaf s hs hsm
+  rw [hd] at hpd
+  rcases List.mem_append.1 hpd with hpd | hpd
+  · obtain ⟨hsd', e, st, h1, h2, h3⟩ := hx p hpd hleaf s hs hsm
+    exact ⟨hext.done_sub hsd', e, st, by rw [hext.frozen p hpd]; exact h1, by rw [hext.frozen s hsd']; exact h2, h3⟩
+  · simp only [List.mem_singleton] at hpd
+    subst hpd
+    have hs1 : s ∈ σ1.done := hsd s hs (hsm.trans hmem.symm)
+    have hs2 : s ∈ σ.done := he1.done_sub hs1
+    obtain ⟨st, _, hst, _⟩ := hb.dates s hs2
+    have hst1 : (σ1.f s).start = some st := by rw [← he1.frozen s hs1]; exact hst
+    obtain ⟨_, e, _, hee, _, hle⟩ := bwdPlace_dates env σ σ' p m _ hb hmem ht hk hmb (minStarts_le _ _ _) h
+    refine ⟨hext.done_sub hs2, e, st, hee, by rw [hext.frozen s hs2]; exact hst, ?_⟩
+    exact Rat.le_trans (hle (Or.inl hleaf)) (minStarts_le_start σ1 _ m s st hs hst1)
+
+/-- late packing of one task in a state (balancing): its member successors are done, the days after its end's
+    day and before the day of the earliest successor start are full, and so are the days strictly inside its
+    work span -/
+def LPAt (env : Env) (σ : SS) (t : Uid) : Prop :=
+  (∀ s ∈ (env.info t).succs, (env.info s).member = true → s ∈ σ.done) ∧
+  (∃ e, (σ.f t).end_ = some e ∧ ∀ d', dayOf e < d' → d' < dayOf (minStarts σ (env.info t).succs env.bound) →
+    capMid σ.res (env.info t).resource d' ≤ reserved σ.rows (env.info t).resource d' none) ∧
+  (∀ d1 d2, firstDay (rowsOf σ.rows t) = some d1 → lastDay (rowsOf σ.rows t) = some d2 →
+    ∀ d', d1 < d' → d' < d2 →
+      capMid σ.res (env.info t).resource d' ≤ reserved σ.rows (env.info t).resource d' none)
+
+def LPInv (env : Env) (σ : SS) : Prop :=
+  ∀ t ∈ σ.done, (env.info t).children.isEmpty = true → (env.info t).milestone = false → LPAt env σ t
+
+theorem reserved_mono_ext {env : Env} {σ σ' : SS} (he : Ext σ σ') (hl : LedgerOK env σ') (k : Option Nat) (d : Int) :
+    reserved σ.rows k d none ≤ reserved σ'.rows k d none := by
+  obtain ⟨r, hr, _⟩ := he.rows
+  rw [hr, reserved_append]
+  have := reserved_nonneg r (fun x hx => hl.pos x (by rw [hr]; exact List.mem_append_right _ hx)) k d none
+  grind
+
+theorem LPAt.stable {env : Env} {σ σ' : SS} {t : Uid} (hb : Base env σ) (hb' : Base env σ') (he : Ext σ σ')
+    (ht : t ∈ σ.done) (h : LPAt env σ t) : LPAt env σ' t := by
+  obtain ⟨h1, ⟨e, hee, h2⟩, h3⟩ := h
+  obtain ⟨r, hr, hrd⟩ := he.rows
+  obtain ⟨rr, hrr, _⟩ := he.res
+  have hcap : ∀ d, capMid σ'.res (env.info t).resource d = capMid σ.res (env.info t).resource d := fun d => by
+    rw [hrr]; exact capMid_append _ _ _ _ (hb.hasRes t ht)
+  have hmono := fun d => reserved_mono_ext he hb'.ledger (env.info t).resource d
+  have hms : minStarts σ' (env.info t).succs env.bound = minStarts σ (env.info t).succs env.bound := by
+    apply minStarts_congr
+    intro s hs
+    cases hsm : (env.info s).member with
+    | true => exact he.frozen s (h1 s hs hsm)
+    | false =>
+      apply he.untouched
+      intro hc
+      rw [hb'.doneMem s hc] at hsm
+      cases hsm
+  have hrows : rowsOf σ'.rows t = rowsOf σ.rows t := by
+    rw [hr, rowsOf_append, rowsOf_none r t (fun x hx hc => (hrd x hx).2 (hc ▸ ht)), List.append_nil]
+  refine ⟨fun s hs hsm => he.done_sub (h1 s hs hsm), ⟨e, by rw [he.frozen t ht]; exact hee, ?_⟩, ?_⟩
+  · intro d' hd1 hd2
+    rw [hms] at hd2
+    rw [hcap]
+    exact Rat.le_trans (h2 d' hd1 hd2) (hmono d')
+  · intro d1 d2 hf hl d' hd1 hd2
+    rw [hrows] at hf hl
+    rw [hcap]
+    exact Rat.le_trans (h3 d1 d2 hf hl d' hd1 hd2) (hmono d')
+
+theorem placeUsed_balance (env : Env) (σ : SS) (t : Uid) (hbal : env.balance = true) (x : Int) :
+    placeUsed env σ t x = reserved σ.rows (env.info t).resource x none := by
+  simp [placeUsed, usedBy, hbal]
+
+/-- the placement of a working leaf called with the project end establishes late packing for it -/
+theorem lp_place (env : Env) (σ1 σ σ' : SS) (t : Uid) (d : Int) (c : Rat) (s : Time) (rows : List (Int × Rat))
+    (hbal : env.balance = true) (hb : Base env σ) (hb' : Base env σ') (hmem : (env.info t).member = true)
+    (ht : t ∉ σ.done) (he1 : Ext σ1 σ) (hext : Ext σ σ')
+    (hsd : ∀ s ∈ (env.info t).succs, (env.info s).member = (env.info t).member → s ∈ σ1.done)
+    (hp : LeafPlaced env σ σ' t env.bound (minStarts σ1 (env.info t).succs env.bound) d c s rows) :
+    LPAt env σ' t := by
+  have he' := he1.trans hext
+  have hu := placeUsed_nonneg env σ t hb.ledger
+  have hub := placeUsed_balance env σ t hbal
+  have hmono := fun x => reserved_mono_ext hext hb'.ledger (env.info t).resource x
+  have hno : ∀ x ∈ σ.rows, x.task ≠ t := fun x hx hc => ht (hc ▸ hb.rowsDone x hx)
+  have hrows : rowsOf σ'.rows t = rows.map (mkRow (env.info t).resource t) := by
+    rw [hp.rowsEq, rowsOf_append, rowsOf_none _ t hno, rowsOf_mk, List.nil_append]
+  refine ⟨fun s hs hsm => he'.done_sub (hsd s hs (hsm.trans hmem.symm)), ⟨_, hp.end_, ?_⟩, ?_⟩
+  · intro d' hd1 hd2
+    have hms : minStarts σ' (env.info t).succs env.bound = minStarts σ1 (env.info t).succs env.bound := by
+      apply minStarts_congr
+      intro s hs
+      cases hsm : (env.info s).member with
+      | true => exact he'.frozen s (hsd s hs (hsm.trans hmem.symm))
+      | false =>
+        apply he'.untouched
+        intro hc
+        rw [hb'.doneMem s hc] at hsm
+        cases hsm
+    rw [hms] at hd2
+    have hfr := div_nonneg_lt_one (u := placeUsed env σ t d) (c := c) (hu d) (by have := hp.avail; grind)
+    have hde : d ≤ dayOf ((d : Rat) + 1 - placeUsed env σ t d / c) := by
+      have := dayOf_mono (a := (d : Rat)) (b := (d : Rat) + 1 - placeUsed env σ t d / c) (by grind)
+      rwa [dayOf_intCast] at this
+    obtain ⟨c', hc', hfull⟩ := hp.fullAfter d' (by omega) hd2
+    rw [capMid_place env σ σ' t d' c' hp.resEq hc']
+    have := hmono d'
+    rw [hub] at hfull
+    grind
+  · intro d1 d2 hf hl d' hd1 hd2
+    rw [hrows] at hf hl
+    obtain ⟨⟨r1, hr1, hr1d⟩, _⟩ := firstDay_spec _ d1 hf
+    obtain ⟨⟨r2, hr2, hr2d⟩, _⟩ := lastDay_spec _ d2 hl
+    obtain ⟨p1, hp1, rfl⟩ := List.mem_map.1 hr1
+    obtain ⟨p2, hp2, rfl⟩ := List.mem_map.1 hr2
+    simp only [mkRow] at hr1d hr2d
+    rcases hp.fill with hnil | ⟨dayL, c', left, hsp, hne, hc', hs'⟩
+    · rw [hnil] at hp1; cases hp1
+    · have hg1 := (hsp.range p1 hp1).2
+      have hg2 := (hsp.range p2 hp2).1
+      by_cases hex : ∃ q ∈ rows, q.1 = d'
+      · obtain ⟨q, hq, hqd⟩ := hex
+        obtain ⟨cq, hcq, hfull⟩ := hsp.full q hq (by omega)
+        rw [hqd] at hcq hfull
+        rw [capMid_place env σ σ' t d' cq hp.resEq hcq]
+        have hsum : reserved σ'.rows (env.info t).resource d' none = placeUsed env σ t d' + q.2 := by
+          rw [hp.rowsEq, reserved_append, reserved_mk, hub]
+          have hqm : (d', q.2) ∈ rows := by rw [← hqd]; exact hq
+          rw [daySum_mem rows d' q.2 (hsp.decr.imp (fun h => Int.ne_of_gt h)) hqm]
+          simp
+        rw [hsum, hfull]
+        grind
+      · obtain ⟨c2, hc2, hsk⟩ := hsp.skipped d' (by omega) (by omega) (fun q hq hc => hex ⟨q, hq, hc⟩)
+        rw [capMid_place env σ σ' t d' c2 hp.resEq hc2]
+        have := hmono d'
+        rw [hub] at hsk
+        grind
+
+theorem LPInv.place {env : Env} {σ1 σ σ' : SS} {t : Uid} (hbal : env.balance = true) (hb : Base env σ)
+    (hb' : Base env σ') (hx : LPInv env σ) (hmem : (env.info t).member = true) (ht : t ∉ σ.done) (he1 : Ext σ1 σ)
+    (hsd : ∀ s ∈ (env.info t).succs, (env.info s).member = (env.info t).member → s ∈ σ1.done)
+    (h : bwdPlace env σ t env.bound (minStarts σ1 (env.info t).succs env.bound) = .ok σ') : LPInv env σ' := by
+  obtain ⟨hext, hd⟩ := bwdPlace_ext env σ σ' t _ _ ht h
+  intro x hxd hleaf hm
+  rw [hd] at hxd
+  rcases List.mem_append.1 hxd with hxd | hxd
+  · exact (hx x hxd hleaf hm).stable hb hb' hext hxd
+  · simp only [List.mem_singleton] at hxd
+    subst hxd
+    obtain ⟨hs0, he0⟩ := hb.fresh x hmem ht
+    obtain ⟨d, c, s, rows, hp⟩ := bwdPlace_leaf env σ σ' x _ _ hb.ledger hleaf hm hs0 he0 h
+    exact lp_place env σ1 σ σ' x d c s rows hbal hb hb' hmem ht he1 hext hsd hp
+
+/-- the relation used under `noSummaryLinks`: every member is called with the project end itself -/
+def RPartial (env : Env) (t : Uid) (m : Time) : Prop := (env.info t).member = true ∧ m = env.bound
+
+theorem dueDate_le (env : Env) (σ : SS) (t : Uid)
+    (hleafs : ∀ s ∈ (env.info t).succs, (env.info s).children.isEmpty = true) :
+    dueDate env (outOf σ) t ≤ minStarts σ (env.info t).succs env.bound := by
+  unfold dueDate minStarts
+  apply le_foldl_minT
+  · exact foldl_minT_le_init _ _
+  · intro y hy
+    obtain ⟨s, hs, hsy⟩ := List.mem_filterMap.1 hy
+    exact foldl_minT_le_mem _ _ _ (List.mem_filterMap.2 ⟨s, succLeaves_own env t s hs (hleafs s hs), hsy⟩)
+
+/-- `C09_partial` with the hypotheses it needs beyond `noSummaryLinks`: parent pointers agree with the children
+    lists (`Env.parentsOK`), links are stored on both ends (`Env.linksSym`), and linked tasks outside the WBS are
+    plain leaves (`outsideLeaves` for predecessors, `hos` for successors).  Each of the four is necessary: see the
+    counterexamples below. -/
+theorem C09_partial_v2 (env : Env) (f0 : Uid → Fields) (res0 : List (Option Nat × Cal)) (o : Output)
+    (hf : env.flagsOK) (hn : noFixedDates env f0 = true) (hs : noSummaryLinks env = true)
+    (hp : env.parentsOK) (hl : env.linksSym) (ho : outsideLeaves env = true)
+    (hos : ∀ t ∈ memberList env, ∀ s ∈ (env.info t).succs,
+      s ∈ memberList env ∨ (env.info s).children.isEmpty = true)
+    (h : backwardCalc env f0 res0 = .ok o) :
+    c09Deps env o = true ∧ c09LatePacked env o = true := by
+  obtain ⟨σ, hb, ⟨hdep, hlp⟩, rfl, hall⟩ := backwardCalc_final env f0 res0 o hf hn h
+    (fun σ => DepInv env σ ∧ (env.balance = true → LPInv env σ)) (RPartial env)
+    (fun σ h0 => ⟨(by intro t ht; rw [h0] at ht; cases ht), (by intro _ t ht; rw [h0] at ht; cases ht)⟩)
+    (fun _ _ hr => ⟨hr.1, by rw [hr.2]; exact Rat.le_refl⟩)
+    (fun r hr => ⟨member_root env hf f0 res0 o h r hr, rfl⟩)
+    (fun σ1 t c m hr hc => by
+      refine ⟨member_child env hf t c hr.1 hc, ?_⟩
+      have hne : (env.info t).children.isEmpty = false := by
+        cases hch : (env.info t).children with
+        | nil => rw [hch] at hc; cases hc
+        | cons a l => rfl
+      rw [(nsl_spec env hs t ((hf t).1 hr.1) hne).2]
+      simpa [minStarts] using hr.2)
+    (fun t p m hr _ he => ⟨he.trans hr.1, hr.2⟩)
+    (fun σ1 σ σ' t m hr hb hx ht he1 hsd hk hpl hb' => by
+      obtain ⟨hmem, rfl⟩ := hr
+      exact ⟨hx.1.place hb hmem ht he1 hsd hk Rat.le_refl hpl,
+        fun hbal => (hx.2 hbal).place hbal hb hb' hmem ht he1 hsd hpl⟩)
+  have hleafs : ∀ t ∈ memberList env, ∀ s ∈ (env.info t).succs, (env.info s).children.isEmpty = true := by
+    intro t ht s hss
+    rcases hos t ht s hss with hsm | hsl
+    · cases hle : (env.info s).children.isEmpty with
+      | true => rfl
+      | false =>
+        have := (nsl_spec env hs s hsm hle).1
+        have htp : t ∈ (env.info s).preds := (hl t s).2 hss
+        rw [this] at htp; cases htp
+    · exact hsl
+  constructor
+  · unfold c09Deps
+    rw [List.all_eq_true]
+    intro t ht
+    cases hleaf : isLeaf env t with
+    | false => rfl
+    | true =>
+      simp only [Bool.not_true, Bool.false_or, List.all_eq_true]
+      intro q hq
+      obtain ⟨hq1, hq2⟩ := List.mem_filter.1 hq
+      have hqm : q ∈ memberList env := List.contains_iff_mem.1 hq2
+      obtain ⟨p, hpp, hqp⟩ := prereq_collapse env hs hp t ht q hq1
+      have hpleaf : (env.info p).children.isEmpty = true := by
+        by_cases hpm : p ∈ memberList env
+        · cases hle : (env.info p).children.isEmpty with
+          | true => rfl
+          | false =>
+            have := (nsl_spec env hs p hpm hle).2
+            have hts : t ∈ (env.info p).succs := (hl p t).1 hpp
+            rw [this] at hts; cases hts
+        · have := List.all_eq_true.1 (List.all_eq_true.1 ho t ht) p hpp
+          simpa [List.contains_iff_mem, hpm] using this
+      rw [leavesOf_leaf env p hpleaf] at hqp
+      simp only [Option.getD_some, List.mem_singleton] at hqp
+      subst hqp
+      obtain ⟨_, e, st, he, hst, hle⟩ := hdep q (hall q hqm) hpleaf t ((hl q t).1 hpp) ((hf t).2 ht)
+      show (match (σ.f q).end_, (σ.f t).start with
+        | some e, some s => decide (e ≤ s)
+        | _, _ => false) = true
+      rw [he, hst]
+      simpa using hle
+  · unfold c09LatePacked
+    cases hbal : env.balance with
+    | false => rfl
+    | true =>
+      simp only [Bool.not_true, Bool.false_or, List.all_eq_true]
+      intro t ht
+      cases hleaf : (env.info t).children.isEmpty with
+      | false => simp [isLeaf, hleaf]
+      | true =>
+        cases hm : (env.info t).milestone with
+        | true => simp
+        | false =>
+          obtain ⟨_, ⟨e, he, h2⟩, h3⟩ := hlp hbal t (hall t ht) hleaf hm
+          simp only [isLeaf, hleaf, Bool.not_true, Bool.false_or, Bool.and_eq_true]
+          constructor
+          · show (match (σ.f t).end_ with
+              | some e => (daysBetween (dayOf e + 1) (dayOf (dueDate env (outOf σ) t))).all
+                  (fun d => fullDay env (outOf σ) (env.info t).resource d t)
+              | none => false) = true
+            rw [he]
+            simp only [List.all_eq_true]
+            intro d hd
+            obtain ⟨hd1, hd2⟩ := (mem_daysBetween _ _ _).1 hd
+            have hdue := dayOf_mono (dueDate_le env σ t (hleafs t ht))
+            have := h2 d (by omega) (by omega)
+            simpa [fullDay, booked, hbal, outOf] using this
+          · show (match firstDay (rowsOf σ.rows t), lastDay (rowsOf σ.rows t) with
+              | some d1, some d2 => (daysBetween (d1 + 1) d2).all
+                  (fun d => fullDay env (outOf σ) (env.info t).resource d t)
+              | _, _ => true) = true
+            cases hfd : firstDay (rowsOf σ.rows t) with
+            | none => rfl
+            | some d1 =>
+              cases hld : lastDay (rowsOf σ.rows t) with
+              | none => rfl
+              | some d2 =>
+                simp only [List.all_eq_true]
+                intro d hd
+                obtain ⟨hd1, hd2⟩ := (mem_daysBetween _ _ _).1 hd
+                have := h3 d1 d2 hfd hld d (by omega) hd2
+                simpa [fullDay, booked, hbal, outOf] using this
+
+/-! ### counterexamples: `C09_partial` without the extra hypotheses of `C09_partial_v2` (kernel-checked) -/
+
+namespace C09CE
+
+def ti (children preds succs : List Uid) (parent : Option Uid := none) (member : Bool := true) : TaskInfo :=
+  { tid := 0, parent := parent, children := children, preds := preds, succs := succs, member := member,
+    resource := some 0, milestone := false, minStart := none }
+
+def nof : Fields := { start := none, end_ := none, est := none, spent := none }
+
+/-- asymmetric link: 0 lists 1 as predecessor, 1 does not list 0 as successor -/
+def ce1 : Env :=
+  { n := 2, info := fun u => match u with
+      | 0 => ti [] [1] []
+      | 1 => ti [] [] []
+      | _ => ti [] [] [] (member := false),
+    roots := [0, 1], balance := true, defaultEst := 1, clock := fun _ => 19000, bound := (316249 : Rat) / 16 }
+
+theorem ce1_mem : memberList ce1 = [0, 1] := by decide +kernel
+
+theorem ce1_flags : ce1.flagsOK := by
+  intro t
+  rw [ce1_mem]
+  match t with
+  | 0 => decide
+  | 1 => decide
+  | n + 2 => simp [ce1, ti]
+
+theorem ce1_parents : ce1.parentsOK := by
+  intro t p ht hpar
+  rw [ce1_mem] at ht
+  simp only [List.mem_cons, List.not_mem_nil, or_false] at ht
+  rcases ht with rfl | rfl <;> simp [ce1, ti] at hpar
+
+/-- `C09_partial` as stated is false (all its hypotheses hold, even with consistent parents; the dependency
+    clause fails): links must be stored on both ends -/
+theorem C09_partial_false_asym :
+    ∃ env f0 res0 o, env.flagsOK ∧ noFixedDates env f0 = true ∧ noSummaryLinks env = true ∧ env.parentsOK ∧
+      backwardCalc env f0 res0 = .ok o ∧ c09Deps env o = false := by
+  have hev : (match backwardCalc ce1 (fun _ => nof) [] with
+      | .ok o => c09Deps ce1 o == false | .error _ => false) = true := by decide +kernel
+  cases hb : backwardCalc ce1 (fun _ => nof) [] with
+  | error e => rw [hb] at hev; cases hev
+  | ok o =>
+    rw [hb] at hev
+    exact ⟨ce1, fun _ => nof, [], o, ce1_flags, by decide +kernel, by decide +kernel, ce1_parents, hb,
+      by simpa using hev⟩
+
+/-- parent pointer not matched by a children list: 0 claims 1 as parent, 1 waits for 2 -/
+def ce2 : Env :=
+  { n := 3, info := fun u => match u with
+      | 0 => ti [] [] [] (parent := some 1)
+      | 1 => ti [] [2] []
+      | 2 => ti [] [] [1]
+      | _ => ti [] [] [] (member := false),
+    roots := [0, 1, 2], balance := false, defaultEst := 1, clock := fun _ => 19000, bound := (316249 : Rat) / 16 }
+
+def ce2f : Uid → Fields := fun u => if u = 0 then { nof with est := some 24 } else nof
+
+theorem ce2_mem : memberList ce2 = [0, 1, 2] := by decide +kernel
+
+theorem ce2_flags : ce2.flagsOK := by
+  intro t
+  rw [ce2_mem]
+  match t with
+  | 0 => decide
+  | 1 => decide
+  | 2 => decide
+  | n + 3 => simp [ce2, ti]
+
+theorem ce2_sym : ce2.linksSym := by
+  intro a b
+  rcases a with _ | _ | _ | a <;> rcases b with _ | _ | _ | b <;> simp [ce2, ti]
+
+/-- `C09_partial` as stated is false also with symmetric links: parent pointers must agree with the children
+    lists (`prereqLeaves` follows parent pointers, the scheduler follows children lists) -/
+theorem C09_partial_false_parent :
+    ∃ env f0 res0 o, env.flagsOK ∧ noFixedDates env f0 = true ∧ noSummaryLinks env = true ∧ env.linksSym ∧
+      backwardCalc env f0 res0 = .ok o ∧ c09Deps env o = false := by
+  have hev : (match backwardCalc ce2 ce2f [] with
+      | .ok o => c09Deps ce2 o == false | .error _ => false) = true := by decide +kernel
+  cases hb : backwardCalc ce2 ce2f [] with
+  | error e => rw [hb] at hev; cases hev
+  | ok o =>
+    rw [hb] at hev
+    exact ⟨ce2, ce2f, [], o, ce2_flags, by decide +kernel, by decide +kernel, ce2_sym, hb, by simpa using hev⟩
+
+/-- an outside successor that has children and a start date of its own: the scheduler honours the date, the
+    due date of the statement looks at the successor's leaves only -/
+def ce3 : Env :=
+  { n := 3, info := fun u => match u with
+      | 0 => ti [] [] [1]
+      | 1 => ti [2] [0] [] (member := false)
+      | 2 => ti [] [] [] (parent := some 1) (member := false)
+      | _ => ti [] [] [] (member := false),
+    roots := [0], balance := true, defaultEst := 1, clock := fun _ => 19000, bound := (316249 : Rat) / 16 }
+
+def ce3f : Uid → Fields := fun u => if u = 1 then { nof with start := some 19750 } else nof
+
+theorem ce3_mem : memberList ce3 = [0] := by decide +kernel
+
+theorem ce3_flags : ce3.flagsOK := by
+  intro t
+  rw [ce3_mem]
+  match t with
+  | 0 => decide
+  | 1 => decide
+  | 2 => decide
+  | n + 3 => simp [ce3, ti]
+
+theorem ce3_sym : ce3.linksSym := by
+  intro a b
+  rcases a with _ | _ | _ | a <;> rcases b with _ | _ | _ | b <;> simp [ce3, ti]
+
+theorem ce3_parents : ce3.parentsOK := by
+  intro t p ht hpar
+  rw [ce3_mem] at ht
+  simp only [List.mem_cons, List.not_mem_nil, or_false] at ht
+  subst ht
+  simp [ce3, ti] at hpar
+
+/-- with consistent parents, symmetric links and leaf-only outside predecessors the late-packing clause still
+    fails when an outside successor has children -/
+theorem C09_partial_false_outside_succ :
+    ∃ env f0 res0 o, env.flagsOK ∧ noFixedDates env f0 = true ∧ noSummaryLinks env = true ∧ env.parentsOK ∧
+      env.linksSym ∧ outsideLeaves env = true ∧
+      backwardCalc env f0 res0 = .ok o ∧ c09LatePacked env o = false := by
+  have hev : (match backwardCalc ce3 ce3f [] with
+      | .ok o => c09LatePacked ce3 o == false | .error _ => false) = true := by decide +kernel
+  cases hb : backwardCalc ce3 ce3f [] with
+  | error e => rw [hb] at hev; cases hev
+  | ok o =>
+    rw [hb] at hev
+    exact ⟨ce3, ce3f, [], o, ce3_flags, by decide +kernel, by decide +kernel, ce3_parents, ce3_sym,
+      by decide +kernel, hb, by simpa using hev⟩
+
+/-- an outside predecessor whose subtree contains a member -/
+def ce4 : Env :=
+  { n := 3, info := fun u => match u with
+      | 0 => ti [] [2] []
+      | 1 => ti [] [] []
+      | 2 => ti [1] [] [0] (member := false)
+      | _ => ti [] [] [] (member := false),
+    roots := [0, 1], balance := true, defaultEst := 1, clock := fun _ => 19000, bound := (316249 : Rat) / 16 }
+
+def ce4f : Uid → Fields := fun u => if u = 2 then { nof with start := some 19000, end_ := some 19001 } else nof
+
+theorem ce4_mem : memberList ce4 = [0, 1] := by decide +kernel
+
+theorem ce4_flags : ce4.flagsOK := by
+  intro t
+  rw [ce4_mem]
+  match t with
+  | 0 => decide
+  | 1 => decide
+  | 2 => decide
+  | n + 3 => simp [ce4, ti]
+
+theorem ce4_sym : ce4.linksSym := by
+  intro a b
+  rcases a with _ | _ | _ | a <;> rcases b with _ | _ | _ | b <;> simp [ce4, ti]
+
+theorem ce4_parents : ce4.parentsOK := by
+  intro t p ht hpar
+  rw [ce4_mem] at ht
+  simp only [List.mem_cons, List.not_mem_nil, or_false] at ht
+  rcases ht with rfl | rfl <;> simp [ce4, ti] at hpar
+
+/-- with consistent parents, symmetric links and no outside successors the dependency clause still fails when an
+    outside predecessor has children (its leaves may be members) -/
+theorem C09_partial_false_outside_pred :
+    ∃ env f0 res0 o, env.flagsOK ∧ noFixedDates env f0 = true ∧ noSummaryLinks env = true ∧ env.parentsOK ∧
+      env.linksSym ∧
+      (∀ t ∈ memberList env, ∀ s ∈ (env.info t).succs, s ∈ memberList env ∨ (env.info s).children.isEmpty = true) ∧
+      backwardCalc env f0 res0 = .ok o ∧ c09Deps env o = false := by
+  have hev : (match backwardCalc ce4 ce4f [] with
+      | .ok o => c09Deps ce4 o == false | .error _ => false) = true := by decide +kernel
+  cases hb : backwardCalc ce4 ce4f [] with
+  | error e => rw [hb] at hev; cases hev
+  | ok o =>
+    rw [hb] at hev
+    refine ⟨ce4, ce4f, [], o, ce4_flags, by decide +kernel, by decide +kernel, ce4_parents, ce4_sym, ?_, hb,
+      by simpa using hev⟩
+    intro t ht s hs
+    rw [ce4_mem] at ht
+    simp only [List.mem_cons, List.not_mem_nil, or_false] at ht
+    rcases ht with rfl | rfl <;> simp [ce4, ti] at hs
+
+end C09CE
+
 end Pj
